@@ -37,7 +37,7 @@ Theorem C14F_conv_s_children :
     conv_s cls S rid s nm s0 =
     conv_node cls rid (conv_s cls S rid)
       (classify ty fmt enum cst nv sv ik items ai mni mxi uq props req ap mnp mxp allo anyo oneo no ref dflt title)
-      nm items props req ap oneo s0.
+      nm items props req ap (union_of oneo anyo) s0.
 Proof. exact conv_s_children. Qed.
 
 Theorem C14F_convert_everywhere :
